@@ -20,6 +20,7 @@ import (
 	"pgregory.net/rapid"
 
 	"verif/ev"
+	"verif/rig/mesh"
 	"verif/rig/codec"
 )
 
@@ -30,6 +31,8 @@ func TestMain(m *testing.M) {
 	lim := syscall.Rlimit{Cur: 12 << 30, Max: 12 << 30}
 	_ = syscall.Setrlimit(syscall.RLIMIT_AS, &lim)
 	codec.Register()
+	mesh.Boot()
+	mesh.SpreadPorts()
 	ev.Main(m)
 }
 
